@@ -123,6 +123,9 @@ func genCase(rt *rapid.T) caseSpec {
 }
 
 type model struct {
+	// requests outstanding at the end of a pause: under the recorded finding
+	// c11-cancel-lost-when-queue-full their Cancel may never have been written
+	lostCancel map[key]bool
 	g           geom
 	localHas    map[int]bool
 	adv         map[int]bool
@@ -172,7 +175,16 @@ func (m *model) onMsg(msg ref.Msg, ext map[string]uint8) string {
 		}
 		k := key{msg.Index, msg.Begin}
 		if _, dup := m.outstanding[k]; dup {
-			return fmt.Sprintf("Request(%d,%d,%d) duplicated while outstanding", i, b, l)
+			if m.lostCancel[k] && (stats.Excl("c11-cancel-lost-when-queue-full") || os.Getenv("VERIF_PROPERTY") == "C09") {
+				// (C09 borrows this harness for its conservation invariant; the
+				// finding is C11's and is reported there)
+				// region of the recorded finding: counted, not failed
+				stats.Excluded("c11-cancel-lost-when-queue-full")
+				delete(m.lostCancel, k)
+				delete(m.outstanding, k)
+			} else {
+				return fmt.Sprintf("Request(%d,%d,%d) duplicated while outstanding", i, b, l)
+			}
 		}
 		c := m.chunkOf(msg.Index, msg.Begin)
 		if m.commanded[c] <= 0 && !m.stale {
@@ -731,6 +743,14 @@ func run(c caseSpec) (fail string, m *model, hist []string) {
 			// what arrives now was written at unknown times during the pause; the
 			// scheduler may have withdrawn those blocks since
 			m.stale = paused
+			if paused {
+				if m.lostCancel == nil {
+					m.lostCancel = map[key]bool{}
+				}
+				for k := range m.outstanding {
+					m.lostCancel[k] = true
+				}
+			}
 			paused = false
 		}
 		if f := process(); f != "" {
@@ -754,6 +774,13 @@ func run(c caseSpec) (fail string, m *model, hist []string) {
 				m.labels["pex-converged"] = true
 			}
 		}
+	}
+	if os.Getenv("VERIF_C11_WIRE") != "" {
+		var ks []string
+		for _, x := range a.R.All() {
+			ks = append(ks, fmt.Sprintf("%d/%d(%d,%d)", x.Kind, x.X, x.Index, x.Begin))
+		}
+		fmt.Println("WIRE:", ks)
 	}
 	return "", m, hist
 }
@@ -907,5 +934,54 @@ func TestC11PexCongested(t *testing.T) {
 			t.Logf("variant %d: labels %v; PEX told %v; trace %v", variant, l, m.pexTold, m.trace)
 		}
 		stats.Case(fmt.Sprintf("pex-congested/%d", variant), true, append(l, "pex-over-congested-connection")...)
+	}
+}
+
+// A Cancel issued while the outgoing queue is more than half full (the remote
+// is not reading), the cancelled request then expiring, and the same block
+// being asked for again once the remote reads again: what the remote sees must
+// still be Request, Cancel, Request - never the same Request twice with
+// nothing in between.
+func TestC11CancelCongested(t *testing.T) {
+	cancelCongested(t, 0, 5)
+	stats.Case("cancel-congested", true, "cancel-over-congested-connection")
+}
+
+// Recorded finding c11-cancel-lost-when-queue-full: with the outgoing queue
+// full to the brim (64 messages) the Cancel cannot be written (write gives up
+// after 200 ms, the error is ignored), the request is nevertheless marked
+// cancelled, forgotten a few seconds later, and asked for again: the remote
+// sees the same Request twice with nothing in between.
+func TestReg_c11_cancel_lost_when_queue_full(t *testing.T) {
+	cancelCongested(t, 5, 6)
+}
+
+func cancelCongested(t *testing.T, from, to int) {
+	for variant := from; variant < to; variant++ {
+		steps := []step{{Kind: "r.haveall"}, {Kind: "r.unchoke"}, {Kind: "t.request", L: []int{0, 4}}, {Kind: "sleep", D: time.Second},
+			// (one message makes the writer flush and block on the connection; what
+			// follows stays in the queue: 34, 40, .. 64 messages)
+			{Kind: "r.pause"}, {Kind: "t.have", I: 2}, {Kind: "t.storm", I: 1, A: 14 + 6*variant},
+			{Kind: "t.cancel", A: variant % 2}, {Kind: "sleep", D: time.Duration(8+variant) * time.Second}, {Kind: "r.unpause"}, {Kind: "sleep", D: 2 * time.Second},
+			{Kind: "t.rerequest", A: 7}, {Kind: "sleep", D: 5 * time.Second}, {Kind: "t.request", L: []int{0, 4}}, {Kind: "sleep", D: 5 * time.Second}}
+		c := caseSpec{g: geom{ps: blk, length: 9 * blk, n: 9}, local: "none", caps: sim.Caps{Extended: true, Fast: true}, reqq: -1,
+			ext: map[string]uint8{"ut_pex": 1, "lt_donthave": 2, "ut_metadata": 3}, steps: steps}
+		var fail string
+		var m *model
+		leak := sim.Bubble(t, func() { fail, m, _ = run(c) })
+		if fail != "" {
+			t.Fatalf("variant %d: %s", variant, fail)
+		}
+		if leak != "" {
+			t.Fatalf("leak: %s", leak)
+		}
+		var l []string
+		for k := range m.labels {
+			l = append(l, k)
+		}
+		sort.Strings(l)
+		if os.Getenv("VERIF_C11_TRACE") != "" {
+			t.Logf("variant %d: labels %v; trace %v", variant, l, m.trace)
+		}
 	}
 }
